@@ -21,6 +21,7 @@ package keys
 //@ o-ensures: [only-keys] forall j int :: 0 <= j && j < len(r) ==> r[j] in m
 //@ o-ensures: [exactly-once] len(r) == len(m) && forall a int, b int :: 0 <= a && a < b && b < len(r) ==> r[a] != r[b]
 //@ o-ensures: [fresh] r != nil
+//@ o-ensures: [keys-of] keysOf(m, r)
 //@ o-loop: 1: invariant len(keys) == $count && keys != nil
 //@ o-loop: 1: invariant forall j int :: 0 <= j && j < len(keys) ==> visited(keys[j])
 //@ o-loop: 1: invariant forall k val :: visited(k) ==> elemOf(k, keys)
